@@ -14,7 +14,7 @@ constant term, box containing the origin and radius:
   (`cauchyGeometry_no_worse`);
 * when the direction ascends strictly and points into the box (`g·c > 0`, every moving component has room), the value
   strictly exceeds the constant term (`stage_strict`) — the clause "strictly increases whenever a feasible first-order
-  improving direction exists", given that the direction found is one.
+  improving direction exists", given that the direction found is one (that it is one: `Props/C16CauchyDir.lean`).
 -/
 namespace Cobyqa.Cauchy
 open Matrix Cobyqa.Tcg
